@@ -398,32 +398,22 @@ where
     /// assert!(n1.is_orphan());
     /// ```
     pub fn isolate(&self) {
-        for Edge(_, v, _) in self.iter() {
-            #[cfg(gdsl_verif)]
-            crate::verif_hook::lock_point(&v.inner.2, true);
-            if v.inner
-                .2
-                .write()
-                .unwrap()
-                .remove_inbound(self.key())
-                .is_err()
-            {
-                #[cfg(gdsl_verif)]
-                crate::verif_hook::lock_point(&v.inner.2, true);
-                v.inner
-                    .2
-                    .write()
-                    .unwrap()
-                    .remove_outbound(self.key())
-                    .unwrap();
+        // Take both lists in one critical section. Walking the live lists
+        // while other threads remove entries from them skips neighbours, and
+        // a mirror entry may already be gone when we get to it.
+        let (outbound, inbound) = self.inner.2.write().unwrap().take_all();
+        // An edge is stored as outbound on its creator and inbound on the
+        // other endpoint.
+        for (v, _) in outbound {
+            if let Some(v) = v.upgrade() {
+                let _ = v.inner.2.write().unwrap().remove_inbound(self.key());
             }
         }
-        #[cfg(gdsl_verif)]
-        crate::verif_hook::lock_point(&self.inner.2, true);
-        self.inner.2.write().unwrap().clear_outbound();
-        #[cfg(gdsl_verif)]
-        crate::verif_hook::lock_point(&self.inner.2, true);
-        self.inner.2.write().unwrap().clear_inbound();
+        for (v, _) in inbound {
+            if let Some(v) = v.upgrade() {
+                let _ = v.inner.2.write().unwrap().remove_outbound(self.key());
+            }
+        }
     }
 
     /// Returns true if the node is an oprhan. Orphan nodes are nodes that have
